@@ -40,18 +40,18 @@ func (s *swJSON) key() string {
 }
 
 type reqState struct {
-	key        string
-	first      *swJSON
-	createdT   time.Duration
-	createdBy  string
-	runCount   int
-	attempts   int
-	openBy     string // incarnation inside an attempt
-	openStart  time.Time
-	terminal   string // "", ok, rejected, aborted
-	deletedBy  string
-	deletedSeq uint64
-	lastStarted time.Time
+	key          string
+	first        *swJSON
+	createdT     time.Duration
+	createdBy    string
+	runCount     int
+	attempts     int
+	openBy       string // incarnation inside an attempt
+	openStart    time.Time
+	terminal     string // "", ok, rejected, aborted
+	deletedBy    string
+	deletedSeq   uint64
+	lastStarted  time.Time
 	overdueIters int
 	limitIters   int
 }
@@ -59,8 +59,8 @@ type reqState struct {
 // C06 - every switch request reaches exactly one terminal outcome, in bounded time.
 type orC06 struct {
 	baseOracle
-	cur   *reqState
-	reqs  map[string]*reqState
+	cur           *reqState
+	reqs          map[string]*reqState
 	pendingDelete *reqState // deleted by a daemon, record not yet seen
 }
 
